@@ -160,8 +160,8 @@ fn main() {
             _ => { i += 1; }
         }
     }
-    // quiet panics: they are caught and classified per case
-    std::panic::set_hook(Box::new(|_| {}));
+    // quiet panics: they are caught and classified per case (HARNESS_PANIC_TRACE=1 prints them, for debugging the harness itself)
+    if std::env::var("HARNESS_PANIC_TRACE").is_ok() { std::panic::set_hook(Box::new(|i| eprintln!("PANIC {i}\n{}", std::backtrace::Backtrace::force_capture()))); } else { std::panic::set_hook(Box::new(|_| {})); }
 
     let (tx, rx) = mpsc::channel::<Pending>();
     let mut child = driver.as_ref().map(|d| {
